@@ -7,7 +7,6 @@ import (
 	"time"
 
 	"kvassverif/internal/core"
-	"kvassverif/internal/sc"
 	"tkestack.io/kvass/pkg/target"
 )
 
@@ -64,6 +63,7 @@ func runC10(w *core.WorkerCtx, idx int) *core.CaseResult {
 	universe := []uint64{1, 2, 3, 4, 5, 6}
 	cur := map[uint64]c10Tgt{}
 	curJob := map[uint64]string{}
+	storeStale := false // an update failed after being applied in memory: the store may lag behind
 
 	check := func(after string) bool {
 		st, err := rg.in.Status()
@@ -125,7 +125,31 @@ func runC10(w *core.WorkerCtx, idx int) *core.CaseResult {
 	}
 	for k := 0; k < nOps && res.Inconcl == ""; k++ {
 		var op c10Op
-		switch x := r.Intn(10); {
+		x := r.Intn(10)
+		overlap, failReload := false, false
+		var gate, entered chan struct{}
+		var overlapDone chan struct{}
+		var overlapHash uint64
+		if x < 4 {
+			switch r.Intn(6) {
+			case 0: // an update arrives while a scrape of a kept target is still in flight
+				var cand []uint64
+				for h := range model.st {
+					cand = append(cand, h)
+				}
+				sort.Slice(cand, func(i, j int) bool { return cand[i] < cand[j] })
+				if len(cand) > 0 {
+					overlap = true
+					overlapHash = cand[r.Intn(len(cand))]
+				}
+			case 1: // the "Prometheus reload" callback of this update fails
+				failReload = !storeStale
+			}
+		}
+		if storeStale && x >= 9 {
+			x = 0 // no restart while the store may lag behind: send a clean update first
+		}
+		switch {
 		case x < 4:
 			op.Kind = "update"
 			next := map[uint64]c10Tgt{}
@@ -141,6 +165,9 @@ func runC10(w *core.WorkerCtx, idx int) *core.CaseResult {
 					keep = had
 				default:
 					keep = r.Intn(2) == 0
+				}
+				if overlap && h == overlapHash {
+					keep = true
 				}
 				if !keep {
 					continue
@@ -180,10 +207,40 @@ func runC10(w *core.WorkerCtx, idx int) *core.CaseResult {
 				tt.Series, tt.TotalSeries = t.Series, t.Total
 				req[nextJob[h]] = append(req[nextJob[h]], tt)
 			}
+			if overlap {
+				// start the scrape and hold it inside the round trip to the target
+				gate, entered, overlapDone = make(chan struct{}), make(chan struct{}), make(chan struct{})
+				rg.mt.set(fmt.Sprintf("t%d.example:9100", overlapHash), &bodyScript{Body: Render(GenSamples(r, 7), false), Gate: gate, Entered: entered})
+				oj := curJob[overlapHash]
+				go func() {
+					defer close(overlapDone)
+					rg.scrapeDirect(oj, overlapHash, 0)
+				}()
+				select {
+				case <-entered:
+				case <-time.After(20 * time.Second):
+					res.Inconcl = "gated scrape never reached the target"
+				}
+				op.Kind = "update-during-scrape"
+				op.Hash = overlapHash
+			}
+			if failReload {
+				rg.failReload = true
+				op.Kind = "update-with-failing-reload"
+			}
 			t0 := time.Now()
-			if err := rg.in.UpdateTargets(req); err != nil {
+			err := rg.in.UpdateTargets(req)
+			rg.failReload = false
+			if failReload && err != nil {
+				storeStale = true
+				res.AddStat("updates_with_failing_reload", 1)
+			} else if failReload {
+				res.Inconcl = "injected reload failure did not surface"
+			} else if err != nil {
 				res.Inconcl = "update: " + err.Error()
 				break
+			} else {
+				storeStale = false
 			}
 			t1 := time.Now()
 			// model
@@ -211,6 +268,30 @@ func runC10(w *core.WorkerCtx, idx int) *core.CaseResult {
 			}
 			cur, curJob = next, nextJob
 			res.AddStat("updates", 1)
+			if overlap && gate != nil {
+				close(gate)
+				select {
+				case <-overlapDone:
+				case <-time.After(20 * time.Second):
+					res.Inconcl = "gated scrape did not finish"
+				}
+				if e := model.st[overlapHash]; e != nil {
+					// the scrape completes AFTER the update: its result lands on the kept entry
+					e.times++
+					e.health, e.hasErr = "up", false
+					e.window = append(e.window, 7)
+					if len(e.window) > 3 {
+						e.window = e.window[1:]
+					}
+					var sum int64
+					for _, v := range e.window {
+						sum += v
+					}
+					e.series = sum / int64(len(e.window))
+					e.total = 7
+				}
+				res.AddStat("updates_during_scrape", 1)
+			}
 		case x < 9:
 			op.Kind = "scrape"
 			op.Hash = universe[r.Intn(len(universe))]
@@ -253,12 +334,12 @@ func runC10(w *core.WorkerCtx, idx int) *core.CaseResult {
 		default:
 			op.Kind = "restart"
 			rg.close()
-			in, err := sc.New(sc.Options{StoreDir: dir})
-			if err != nil {
+			rg.srv = nil
+			if err := rg.build(nil); err != nil {
 				res.Violate("C10/restart-fails", "restart on the store failed: %v", err)
 				break
 			}
-			rg = &rig{in: in, dir: dir, mt: rg.mt}
+			in := rg.in
 			if err := in.PushConfig(fmt.Sprintf(rigConfigTmpl, "10s", "")); err != nil {
 				res.Inconcl = "push config after restart: " + err.Error()
 				break
@@ -315,7 +396,7 @@ func init() {
 	core.Register(&core.Prop{
 		ID:    "C10",
 		Level: "exploration",
-		Rule: "case = seed-determined sequence of 5-40 operations on one real sidecar over a universe of 6 targets / 2 jobs: update (adds, removals, pure state flips, exact repeats, empty set, moves between jobs), scrape through the real proxy (successful with 0-59 samples, or failing with 503; assigned and unassigned hashes), restart (all objects rebuilt on the same store directory); after every operation /targets/status/ and /runtimeinfo/ are compared with a ~60-line reference model of (status map, idle-since); " +
+		Rule: "case = seed-determined sequence of 5-40 operations on one real sidecar over a universe of 6 targets / 2 jobs: update (adds, removals, pure state flips, exact repeats, empty set, moves between jobs), scrape through the real proxy (successful with 0-59 samples, or failing with 503; assigned and unassigned hashes), update arriving while a scrape of a kept target is held inside the round trip to the target, update whose Prometheus-reload callback fails (the idle/status invariants must hold all the same; no restart until a clean update), restart (all objects rebuilt on the same store directory); after every operation /targets/status/ and /runtimeinfo/ are compared with a ~60-line reference model of (status map, idle-since); " +
 			"idle-since is judged by equality with the instant first reported for the idle period and by bracketing that first report with the harness' clock readings around the emptying update; non-trivial = at least 5 operations; distinct = hash of the operation sequence",
 		Assumptions: []string{
 			"conflicting duplicates of one hash inside a single request are not generated (the statement does not define them)",
